@@ -2,14 +2,14 @@
 
 Symbolic run: the real `KernelCpu.__call__` / `to_function_arg` and the real `KernelDispatcher` are executed for
 objects living at SYMBOLIC offsets of symbolically placed (and grown) buffers.  The three foreign calls of that code
-are stubs (S12): `ffi.from_buffer(x)` -> the address of the first byte of x, `ffi.cast(ctype, address)` -> a typed
+are stubs (S15): `ffi.from_buffer(x)` -> the address of the first byte of x, `ffi.cast(ctype, address)` -> a typed
 pointer, `np.frombuffer(storage).ctypes.data` -> the address of the storage; an address is (storage identity, z3
 offset term).  The compiled function is a recorder that does what cffi does at the call: it refuses a pointer whose C
 type is not the declared one, and keeps the arguments.  Obligations (z3): every xobject argument is a pointer to
 (current storage of its buffer, the object's offset); every xobject array passed where a pointer to scalars is
 declared points to (current storage, offset + data offset); declared order; the return value comes back unchanged.
 
-Concrete run (validation of S12 and everything the stubs hide): the same scenario with real compiled probe kernels
+Concrete run (validation of S15 and everything the stubs hide): the same scenario with real compiled probe kernels
 that report what they received (address minus buffer base, first element, the scalar itself).
 """
 import itertools
@@ -99,7 +99,7 @@ def kernels():
 
 
 # ---------------------------------------------------------------------------
-# S12: addresses and typed pointers of the symbolic run
+# S15: addresses and typed pointers of the symbolic run
 class Addr:
     def __init__(self, store, off):
         self.store, self.off = store, off
